@@ -50,11 +50,11 @@ Proof. exact (sdiff_entries K V cmp veq). Qed.
 End GENERIC.
 
 (** for the library's keys and values, over one store: a name stands for one node *)
-Theorem C06_names_are_functional : forall s kind h (a b : knode), sto s kind h a -> sto s kind h b -> a = b.
+Theorem C06_names_are_functional : forall fmt s kind h (a b : knode), sto fmt s kind h a -> sto fmt s kind h b -> a = b.
 Proof. exact sto_fun. Qed.
 
-Theorem C06_diff : forall s kind bf (mo mn : kmast) lo ln,
-  kcanon bf mo lo -> kcanon bf mn ln -> root_allh s kind mo -> root_allh s kind mn ->
+Theorem C06_diff : forall fmt s kind bf (mo mn : kmast) lo ln,
+  kcanon bf mo lo -> kcanon bf mn ln -> root_allh fmt s kind mo -> root_allh fmt s kind mn ->
   oks (diff _ _ kcmp bytes_eqb (klayer bf) (Some mo) mn)
       (fun r => filter (is_entry key val) r = sdiff key val kcmp bytes_eqb lo ln).
 Proof. exact k_diff_entries. Qed.
